@@ -108,7 +108,7 @@ WITNESS_TESTS = {
     "what": "KNOWN FINDING witness: a two-frame request read with recv() on REP and a two-frame reply read with recv() on REQ: the second frame is lost",
   },
   "c02_dealer_router_mixed_recv": {
-    "file": "witness/c02_dealer_router_mixed_recv.rs", "props": ["C02"], "pairs_fn": ["DealerSocket::recv_multipart"],
+    "file": "witness/c02_dealer_router_mixed_recv.rs", "props": ["C02"], "pairs_fn": ["DealerSocket::recv_multipart", "RouterSocket::recv_multipart"],
     "what": "ROUTER and DEALER: recv() of the first frame of message A, then recv_multipart(): must return the rest of A, not message B",
   },
   "c02_inproc_reader_too_many_frames": {
@@ -215,7 +215,7 @@ ENGINE_TRUSTED = COMMON_TRUSTED + [
 ]
 
 PROPS["C02"] = {
-  "units": ["framebatch", "engine", "anon", "dealersend", "flags", "reqrep", "routerfrag", "inprocrd", "routersend", "dealerrecv"],
+  "units": ["framebatch", "engine", "anon", "dealersend", "flags", "reqrep", "routerfrag", "inprocrd", "routersend", "dealerrecv", "routerrecvmp"],
   "kani_quick": [], "kani_thorough": [],
   "claim": "Receiver side, proved unbounded on the verbatim code: ZmtpEngine::process_data delivers only complete messages (MORE on all but the last frame), and delivered frames + the message in progress equal, in order, "
            "the data frames the framer returned (nothing dropped, duplicated, reordered or merged across calls); a message of more than 255 frames closes the connection with PeerError instead of panicking and nothing truncated is delivered. "
@@ -232,7 +232,7 @@ PROPS["C02"] = {
            "(so a PUSH message goes to one peer, and a PUB message is dropped for a slow subscriber as a whole or not at all); a message beyond 255 frames is refused, never sent in part. "
            "ROUTER's frame-by-frame send (unit routersend, the payload branch as a region): a payload frame goes to the connection the identity frame selected, the last frame closes the send in progress, an accepted MORE frame keeps it open "
            "(one known finding: a REFUSED MORE frame closes it and leaves a partial message on the connection). "
-           "Mixed receiving styles on DEALER (unit dealerrecv): after recv() has handed out the first frame of a message, recv_multipart() returns exactly the kept rest of that message and takes nothing from the queue. "
+           "Mixed receiving styles on DEALER and ROUTER (units dealerrecv, routerrecvmp): after recv() has handed out the first frame of a message, recv_multipart() returns exactly the kept rest of that message and takes nothing from the queue. "
            "REQ / REP recv() (unit reqrep): two known findings -- recv() returns the first payload frame and drops the rest of a multipart message. "
            "inproc (unit inprocrd, the body of the direct-inproc reader task as a region, three nested loops): frames forwarded ++ frames waiting ++ accumulator == frames taken off the channel at every point, however the frames of a message are spread "
            "over wake-ups of the task; only batches ending in a frame without MORE are forwarded; the reassembly never overruns the 255-frame capacity (a longer message closes the connection).",
